@@ -393,10 +393,15 @@ func (ps *PubSub) Channels() []string {
 	}
 
 	var channels []string
+	seen := make(map[string]struct{})
 	for _, sconn := range ps.conns {
 		sconn.mu.Lock()
 		for ient := range sconn.entries {
+			if _, ok := seen[ient.channel]; ok {
+				continue
+			}
 			if !ient.pattern {
+				seen[ient.channel] = struct{}{}
 				channels = append(channels, ient.channel)
 			}
 		}
@@ -415,10 +420,15 @@ func (ps *PubSub) ChannelsWithPatterns(pattern string) []string {
 	}
 
 	var channels []string
+	seen := make(map[string]struct{})
 	for _, sconn := range ps.conns {
 		sconn.mu.Lock()
 		for ient := range sconn.entries {
+			if _, ok := seen[ient.channel]; ok || ient.pattern {
+				continue
+			}
 			if match.Match(ient.channel, pattern) {
+				seen[ient.channel] = struct{}{}
 				channels = append(channels, ient.channel)
 			}
 		}
@@ -462,6 +472,9 @@ func (ps *PubSub) Numsub(channel string) int {
 	for _, sconn := range ps.conns {
 		sconn.mu.Lock()
 		for ient := range sconn.entries {
+			if ient.pattern {
+				continue
+			}
 			if ient.channel == channel {
 				result++
 			}
